@@ -14,7 +14,7 @@
 import json, os
 from lib import vlib
 
-C03_INV = ["Counts", "ReadsRight", "WindowsDisjoint", "Committed"]
+C03_INV = ["Counts", "ReadsRight", "WindowsDisjoint", "Committed", "TagsComplete", "WindowTagsRight"]
 C04_INV = ["NeverIsTrue", "EofIsTrue", "NoLoss", "LateFalse"]
 
 
@@ -25,7 +25,8 @@ def consts(cap, total, chunk, waits, needs, quirks="{}"):
 
 def classify(text):
     for k, sig in (("NeverIsTrue", "never"), ("EofIsTrue", "eof"), ("NoLoss", "loss"), ("LateFalse", "latefalse"),
-                   ("ReadsRight", "reads"), ("WindowsDisjoint", "windows"), ("Counts", "counts"), ("Committed", "committed")):
+                   ("ReadsRight", "reads"), ("WindowsDisjoint", "windows"), ("Counts", "counts"), ("Committed", "committed"),
+                   ("TagsComplete", "tags"), ("WindowTagsRight", "wintags")):
         if k in text:
             return "inv:" + sig
     if "diverged" in text:
@@ -162,6 +163,13 @@ def run(ctx, quirks="{}"):
         last = (tf, c)
     if last and not ctx.violations:
         self_test(ctx, last[0], last[1], allinv)
+    if ctx.prop == "C03":
+        cfg = ctx.path("smt-quirk-tags.cfg")
+        vlib.write_cfg(cfg, consts(2, 3, 2, 1, [1], '{"consume_two_sections"}'), spec="Spec", invariants=["TagsComplete", "WindowTagsRight"])
+        r = vlib.tlc(ctx, "StreamMT", cfg, workers=4)
+        if "TagsComplete" not in " ".join(r.violated) and "violated" not in r.out:
+            raise vlib.ToolError("quirk consume_two_sections not detected: tag invariants are vacuous")
+        ctx.notes.append("non-vacuity: model with quirk consume_two_sections (space released and tags pruned in two critical sections) violates TagsComplete")
     if ctx.prop == "C04":
         # packet (non-copy) streams
         ncinv = ["NeverIsTrue", "EofIsTrue", "NoLoss", "LateFalse"]
